@@ -401,6 +401,14 @@ void World::after_step(const StepEffect& e)
     if (faulted && !e.out.threw && e.out.step_errors > 0)
         report("C14", "C14|" + e.op + "|" + fam() + "|error-swallowed|" + fault_site(e.fault),
                "a statement failed inside " + e.op + " but the call returned normally");
+    if (!faulted && e.out.step_errors > 0)
+    {
+        // a statement of the call failed for real (constraint violation, ...) without any injected fault
+        probes.hit("natural_stmt_error");
+        if (!e.out.threw)
+            report("C14", "C14|" + e.op + "|" + fam() + "|error-swallowed|natural",
+                   "a statement failed inside " + e.op + " (no fault injected) but the call returned normally");
+    }
     bool purity = check(CK_PURITY) && !faulted && e.out.step_errors == 0;
     if (purity)
         check_purity_begin();
